@@ -90,6 +90,33 @@ CLAIMS: dict = {
              'reported under C11.',
         technique='contract-based deductive verification: flow equivalence by AST-level symbolic execution, SQL->FOL, z3',
         engines=['pyvc', 'sqlvc']),
+    'C13': dict(
+        category='exploration',
+        text='Bounded stand-in, labelled as such: the real taxonomy functions and the real path enumerator are run on '
+             'EVERY labelled digraph with <= 3 nodes (quick) / <= 4 nodes (thorough; relation_paths/closure always 4) '
+             'x every ordered pair x simulate_root and compared with brute-force graph-theoretic definitions '
+             '(maximal simple chains, ancestor sets, min over common c of dist(a,c)+dist(b,c), ...); termination '
+             'observed on all of them. Deductive obligations (proved, unbounded) cover only the non-worklist pieces: '
+             'a/s merging of _synsets_for_pos, delegation of the Synset methods, relation types of hypernyms()/hyponyms().',
+        note='Not a proof: the worklist loops over mutable sets/dicts (relation_paths, _shortest_hyp_paths, '
+             'taxonomy_depth) are outside what the VC generator expresses (aliasing of per-branch visited sets, '
+             'dict-of-lists accumulation); loop invariants were not mechanised. Termination beyond the bound: A-MATH. '
+             'Known finding K4 (cycles of length >= 2).',
+        technique='contract-based verification family: bounded stand-in (exhaustive small-scope enumeration on the real '
+                  'functions) + deductive obligations for the straight-line pieces',
+        engines=['bounded', 'pyvc']),
+    'C15': dict(
+        category='exploration',
+        text='Deductive (proved for all weight tables): synset_probability / information_content formulas, probability '
+             'in (0,1], IC >= 0, monotonicity, satellite adjectives, _initialize inventory. Bounded stand-in for the '
+             'accumulating worklist of compute() (conservation of the total, each ancestor once per word-synset, '
+             'unknown words, distribute_weight, smoothing 0/1) on every digraph <= 3 (quick) / 4 (thorough) nodes x 5 '
+             'corpora, and for load() on generated weight files.',
+        note='compute()/load() are bounded, not proved (worklist over a mutable table; file parsing). A-FLOAT, A-MATH. '
+             'Fixed findings F3 (weight once per PATH on diamonds) and F6 (KeyError for satellite adjectives).',
+        technique='contract-based verification family: z3 obligations over the real probability/IC functions + bounded '
+                  'stand-in for compute()/load()',
+        engines=['pyvc', 'bounded']),
     'C14': dict(
         category='proof',
         text='Every function of wn/similarity.py is executed symbolically (reals) against the contracts of the taxonomy '
